@@ -177,6 +177,7 @@ func (fr *Frame) inline(st *State, callee *ssa.Function, args []Val, bindings []
 	nf.old = st.Clone()
 	saved := st.defers
 	st.defers = nil
+	nf.savedDefers = saved
 	res := nf.exec(st)
 	top.unsupported = append(top.unsupported, nf.unsupported...)
 	// continue only on paths where the callee returned
